@@ -1280,7 +1280,9 @@ impl Server {
         let mut query = String::from("");
 
         for (key, value) in parameter_diff {
-            query.push_str(&format!("SET {} TO '{}';", key, value));
+            // The value goes into a string literal: double embedded single quotes,
+            // otherwise the whole statement is a syntax error and no parameter is synced.
+            query.push_str(&format!("SET {} TO '{}';", key, value.replace('\'', "''")));
         }
 
         let res = self.query(&query).await;
